@@ -213,12 +213,35 @@ def sort_model(j):
     return {"r": out}
 
 
-async def run_impl(frames):
+INSPECT_MODES = (None, "repr", "data", "len", "eq", "message")
+
+
+def inspect_frame(frame, mode, kind, payload):
+    """what a client (or DEBUG logging in the reader: `Received frame: %s`) may do with a received frame BEFORE
+    the device handles it; whatever it raises is the client's business (a payload that cannot be decoded
+    without its device), the device-level result must not depend on it"""
+    try:
+        if mode == "repr":
+            repr(frame)
+        elif mode == "data":
+            frame.data  # noqa: B018
+        elif mode == "len":
+            len(frame), frame.bytes  # noqa: B018
+        elif mode == "eq":
+            frame == FRAME_CLASS[kind](message=bytearray(payload))  # noqa: B015
+        elif mode == "message":
+            frame.message, frame.hex()  # noqa: B018
+    except Exception:  # noqa: BLE001
+        pass
+
+
+async def run_impl(frames, inspect=None):
     """-> list of (handled?, snapshot | error) after each frame"""
     dev = EcoMAX(asyncio.Queue(), NetworkInfo())
     out = []
     for kind, payload in frames:
         frame = FRAME_CLASS[kind](message=bytearray(payload))
+        inspect_frame(frame, inspect, kind, payload)
         try:
             dev.handle_frame(frame)
             ok = "1"
@@ -236,8 +259,10 @@ async def run_impl(frames):
     return out
 
 
-def check_sequence(res, label, wellformed, frames, answer, impl):
+def check_sequence(res, label, wellformed, frames, answer, impl, inspect=None):
     inp = dict(kind="device-seq", label=label, wellformed=wellformed, frames=[[k, p.hex()] for k, p in frames])
+    if inspect:
+        inp["inspect"] = inspect
     toks = [] if answer == "." else answer.split(" ")
     if len(toks) != len(frames):
         raise RuntimeError("driver answered a different number of device states")
@@ -263,11 +288,17 @@ async def _run(ctx, res, seqs=None, payloads=None):
             seqs = seqs[: ctx["max_cases"]]
         payloads = encode_sequences(seqs)
     answers = driver_batch("c05d-run " + " ".join(f"{k}:{hexs(p)}" for k, p in frames) for frames in payloads)
-    for (label, wf, _), frames, ans in zip(seqs, payloads, answers):
+    for n, ((label, wf, _), frames, ans) in enumerate(zip(seqs, payloads, answers)):
         impl = await run_impl(frames)
         res.case(("dev", tuple(frames)), True)
         res.count("device-seq:" + label)
         check_sequence(res, label, wf, frames, ans, impl)
+        # the same sequence with every frame inspected by the client before the device handles it
+        mode = ctx.get("inspect") or INSPECT_MODES[1 + n % (len(INSPECT_MODES) - 1)]
+        impl2 = await run_impl(frames, mode)
+        res.case(("dev", mode, tuple(frames)), True)
+        res.count("device-seq-inspected:" + mode)
+        check_sequence(res, label, wf, frames, ans, impl2, mode)
         if not any(s.get("label") == "device:" + label for s in res.samples):
             res.sample(dict(label="device:" + label, frames=[[k, p.hex()[:80]] for k, p in frames], model=ans[:300]), limit=14)
 
@@ -279,4 +310,4 @@ def run_device(ctx, res):
 def replay_one(inp, res):
     frames = [(k, bytes.fromhex(h)) for k, h in inp["frames"]]
     res.case(tuple(frames))
-    vloop.run(_run({}, res, [(inp.get("label", "replay"), inp.get("wellformed", False), None)], [frames]))
+    vloop.run(_run(dict(inspect=inp.get("inspect")), res, [(inp.get("label", "replay"), inp.get("wellformed", False), None)], [frames]))
